@@ -95,15 +95,14 @@ Section Oracles.
   (* ---- cx.pyx BeamCXPEC:
          qeb = log10(PhotonToJ.to(data["qeb"], wavelength)); qti = data["qti"] / qref; ... (linear space)
          each axis: Interpolator1DArray if len > 1 else Constant1D
-         evaluate: if energy <= 0: return 0
+         evaluate: if energy <= 0 or temperature <= 0 or density <= 0: return 0     (since /repo commit 67ef6ef)
                    rate = 10 ** _eb(log10 energy)
                    rate *= _ti(temperature);  if rate <= 0: return 0
                    rate *= _ni(density);      if rate <= 0: return 0
                    rate *= _zeff(z_effective);if rate <= 0: return 0
                    rate *= _b(b_field);       if rate <= 0: return 0
                    return rate
-       The model also returns 0 for temperature <= 0 and density <= 0 (what the property asks for);
-       the source has no such guard. ---- *)
+       Before 67ef6ef only energy was guarded: that version is kept below as evalcx_code. ---- *)
   Definition lin1 (ks vs : list Q) (qref x : Q) : Q :=
     if single ks then nth 0%nat vs 0 / qref
     else interpq (length ks) (fun i => nth i ks 0) (fun i => nth i vs 0 / qref) x.
@@ -126,7 +125,7 @@ Section Oracles.
       cx_step ext zs qz qref z r3 (fun r4 =>
       cx_step ext bs qb qref b r4 (fun r5 => Val r5)))).
 
-  (* the source as it is: only the energy guard *)
+  (* the source as it was before 67ef6ef: only the energy guard *)
   Definition evalcx_code (cv : Q -> Q) (ext : bool) (ebs tis nis zs bs qeb qti qni qz qb : list Q) (qref : Q)
              (e t n z b : Q) : outcome :=
     if nonpos e then Val 0
